@@ -387,10 +387,15 @@ def seekPos (len pos : Nat) (off : Int) (whence : Nat) : Option Nat :=
     else -1
   if npos < 0 then none else some npos.toNat
 
-def statRes : Except Err Entry → Res
-  | .ok (.file d) => .info false d.length
-  | .ok .dir => .info true 0
-  | .error _ => .err
+/-- Success value with the error kind dropped. -/
+def okOf {α : Type} : Except Err α → Option α
+  | .ok a => some a
+  | .error _ => none
+
+def statRes : Option Entry → Res
+  | some (.file d) => .info false d.length
+  | some .dir => .info true 0
+  | none => .err
 
 /-- Steps that do not depend on the flavour once the handle is known to be usable. -/
 def fstatRes (s : State) (hd : Handle) : Res :=
@@ -401,13 +406,13 @@ namespace Mem
 /-- One `memFS` / `memFile` call. -/
 def step (s : State) : Op → State × Res
   | .mkdir p =>
-    match Mem.mkdir s.tree p with
-    | .ok t => ({ s with tree := t }, .ok)
-    | .error _ => (s, .err)
+    match okOf (Mem.mkdir s.tree p) with
+    | some t => ({ s with tree := t }, .ok)
+    | none => (s, .err)
   | .open p f =>
-    match Mem.openFile s.tree p f with
-    | .error _ => (s, .err)
-    | .ok (t, info) => addHandle s t info f
+    match okOf (Mem.openFile s.tree p f) with
+    | none => (s, .err)
+    | some (t, info) => addHandle s t info f
   | .write h data =>
     match s.handles[h]? with
     | none => (s, .badHandle)
@@ -448,14 +453,14 @@ def step (s : State) : Op → State × Res
         (setPos s h hd.kids.length, .listing hd.kids)
   | .rename a b =>
     if a = b then (s, .ok)
-    else match Mem.rename s.tree a b with
-      | .error _ => (s, .err)
-      | .ok t2 => (effRename s a b t2, .ok)
+    else match okOf (Mem.rename s.tree a b) with
+      | none => (s, .err)
+      | some t2 => (effRename s a b t2, .ok)
   | .removeAll p =>
-    match Mem.removeAll s.tree p with
-    | .error _ => (s, .err)
-    | .ok _ => (effRemove s p, .ok)
-  | .stat p => (s, statRes (Mem.stat s.tree p))
+    match okOf (Mem.removeAll s.tree p) with
+    | none => (s, .err)
+    | some _ => (effRemove s p, .ok)
+  | .stat p => (s, statRes (okOf (Mem.stat s.tree p)))
   | .fstat h =>
     match s.handles[h]? with
     | none => (s, .badHandle)
@@ -473,13 +478,13 @@ def writeAt (data : List Nat) (pos : Nat) (app : Bool) (p : List Nat) : List Nat
 /-- One `webdav.Dir` / `*os.File` call. -/
 def step (s : State) : Op → State × Res
   | .mkdir p =>
-    match Os.mkdir s.tree p with
-    | .ok t => ({ s with tree := t }, .ok)
-    | .error _ => (s, .err)
+    match okOf (Os.mkdir s.tree p) with
+    | some t => ({ s with tree := t }, .ok)
+    | none => (s, .err)
   | .open p f =>
-    match Os.openFile s.tree p f with
-    | .error _ => (s, .err)
-    | .ok (t, info) => addHandle s t info f
+    match okOf (Os.openFile s.tree p f) with
+    | none => (s, .err)
+    | some (t, info) => addHandle s t info f
   | .write h data =>
     match s.handles[h]? with
     | none => (s, .badHandle)
@@ -521,14 +526,14 @@ def step (s : State) : Op → State × Res
         -- the remaining entries
         (setPos s h hd.kids.length, .listing (hd.kids.drop hd.pos))
   | .rename a b =>
-    match Os.rename s.tree a b with
-    | .error _ => (s, .err)
-    | .ok t2 => if a = b then (s, .ok) else (effRename s a b t2, .ok)
+    match okOf (Os.rename s.tree a b) with
+    | none => (s, .err)
+    | some t2 => if a = b then (s, .ok) else (effRename s a b t2, .ok)
   | .removeAll p =>
-    match Os.removeAll s.tree p with
-    | .error _ => (s, .err)
-    | .ok _ => (effRemove s p, .ok)
-  | .stat p => (s, statRes (Os.stat s.tree p))
+    match okOf (Os.removeAll s.tree p) with
+    | none => (s, .err)
+    | some _ => (effRemove s p, .ok)
+  | .stat p => (s, statRes (okOf (Os.stat s.tree p)))
   | .fstat h =>
     match s.handles[h]? with
     | none => (s, .badHandle)
